@@ -2554,6 +2554,12 @@ void read_table_column_alignments(const char * source, token * table, scratch_pa
 	while (walker) {
 		switch (walker->type) {
 			case TABLE_CELL:
+				if (counter == kMaxTableColumns - 1) {
+					// No room left (one slot is needed for the terminator);
+					// remaining columns get the default alignment
+					break;
+				}
+
 				align = scan_alignment_string(&source[walker->start]);
 
 				switch (align) {
